@@ -233,3 +233,26 @@ Theorem si_model_is_source_geometry :
   (forall dmin, geom_dft M S dmin true = gen.SiK.g_siinit_setD__0 (geom_dft M S dmin false)).
 Proof. exact geometry_tie. Qed.
 Print Assumptions si_model_is_source_geometry.
+
+(* ======================= the convolution theorem ======================= *)
+(* np.fft is replaced in the model by the circular convolution [cconv]; that replacement is the
+   circular convolution theorem, proved in C03/ConvThm.v for the DFT / IDFT SUMS over any
+   commutative ring in which the twiddles tw m = w^m are multiplicative and orthogonal
+   ((1/D) sum_k w^(k m) = [m = 0 mod D]): the model's cconv of the D-sample buffer with the
+   (zero-extended) taps IS idft (dft buf . dft taps).  What remains trusted of np.fft: it
+   computes these sums. *)
+From Verif Require Import C03.ConvThm.
+Theorem si_cconv_is_idft_of_dft_product :
+  forall (R : Type) (rO rI : R) (radd rmul rsub : R -> R -> R) (ropp : R -> R),
+  Ring_theory.ring_theory rO rI radd rmul rsub ropp eq ->
+  forall D : Z, 0 < D ->
+  forall tw : Z -> R, (forall a b : Z, tw (a + b) = rmul (tw a) (tw b)) ->
+  forall invD : R,
+  (forall m : Z, rmul invD (rsum R rO radd (fun k : Z => tw (k * m)) D) = (if m mod D =? 0 then rI else rO)) ->
+  forall (taps buf : list R) (q : Z), zlen taps <= D ->
+  cconv R rO radd rmul D taps buf q =
+  idft R rO radd rmul D tw invD
+    (fun k : Z => rmul (ConvThm.dft R rO radd rmul D tw (fun n : Z => znth n buf rO) k)
+                       (ConvThm.dft R rO radd rmul D tw (fun j : Z => znth j taps rO) k)) q.
+Proof. exact model_cconv_is_idft_of_product. Qed.
+Print Assumptions si_cconv_is_idft_of_dft_product.
